@@ -15,8 +15,60 @@ W = "WebSocketWriter"
 WIDTH = {"B": 8, "H": 16, "L": 32, "Q": 64}
 
 
+def _is_lock(e, lock, ctx) -> bool:
+    """The expression is the lock itself or a local whose only definition is the lock (`send_lock = self._send_lock`)."""
+    return norm.raw(e) == lock or norm.text(e, ctx) == lock
+
+
+def _lock_stmt(st, lock, meth) -> bool:
+    """The statement `await L.acquire()` / `L.release()` on the lock (an acquire() that is not awaited takes nothing)."""
+    v = st.value if isinstance(st, ast.Expr) else None
+    if meth == "acquire":
+        v = v.value if isinstance(v, ast.Await) else None
+    return isinstance(v, ast.Call) and not v.args and not v.keywords and isinstance(v.func, ast.Attribute) and v.func.attr == meth and _is_lock(v.func.value, lock, st)
+
+
+def _releases(stmts, lock) -> bool:
+    return any(isinstance(c, ast.Call) and isinstance(c.func, ast.Attribute) and c.func.attr == "release" and _is_lock(c.func.value, lock, c) for s in stmts for c in ast.walk(s))
+
+
+def _held_by_try(t: ast.Try, node, lock) -> bool:
+    """`await L.acquire()` / `try: <node> finally: L.release()` - what `async with L:` expands to: the try statement directly follows the
+    acquisition in the same block (nothing in between gives the lock back), the lock is given back in the finally and nowhere before it."""
+    protected = t.body + t.handlers + t.orelse
+    if not any(node is x for s in protected for x in ast.walk(s)):
+        return False
+    if not any(_lock_stmt(s, lock, "release") for s in t.finalbody) or _releases(protected, lock):
+        return False
+    blk = PC._block_of(t) or []
+    before = blk[: blk.index(t)] if t in blk else []
+    for k in range(len(before) - 1, -1, -1):
+        if _lock_stmt(before[k], lock, "acquire"):
+            return not _releases(before[k + 1:], lock)
+    return False
+
+
 def under_lock(node, lock="self._send_lock") -> bool:
-    return any(isinstance(w, ast.AsyncWith) and any(norm.raw(it.context_expr) == lock for it in w.items) for w in prog.enclosing(node, (ast.AsyncWith,)))
+    """The node runs while the lock is held: inside `async with <lock>` or inside the try of acquire()/try/finally/release()."""
+    for w in prog.enclosing(node, (ast.AsyncWith, ast.Try)):
+        if isinstance(w, ast.AsyncWith):
+            if any(_is_lock(it.context_expr, lock, node) for it in w.items) and any(node is x for s in w.body for x in ast.walk(s)):
+                return True
+        elif _held_by_try(w, node, lock):
+            return True
+    return False
+
+
+def lock_entries(g, lock="self._send_lock") -> list:
+    """CFG nodes that take the lock: the entry of `async with <lock>` or the statement `await <lock>.acquire()`."""
+    out = []
+    for n in g.nodes:
+        a = getattr(n, "ast", None)
+        if n.kind == "with-enter" and isinstance(a, ast.AsyncWith) and any(_is_lock(it.context_expr, lock, a) for it in a.items):
+            out.append(n)
+        elif n.kind == "stmt" and isinstance(a, ast.AST) and _lock_stmt(a, lock, "acquire"):
+            out.append(n)
+    return out
 
 
 def frame_atomic(chk, repo, wc, rule="C11.frame.atomic"):
@@ -112,7 +164,8 @@ def hunt5_rules(chk, repo, wc, folder):
         chk.ok("C11.closing.pending", cf, "send_frame() creates its tasks eagerly only: they queue for the lock in the step that creates them")
     else:
         g = cfg_of(cf.node)
-        lock = [n_ for n_ in g.nodes if n_.kind == "with-enter" and "self._send_lock" in norm.raw(n_.ast)] or [n_ for n_ in g.nodes if isinstance(getattr(n_, "ast", None), ast.AsyncWith) and "self._send_lock" in norm.raw(n_.ast.items[0].context_expr)]
+        # where close() takes the send lock: `async with self._send_lock:` or `await self._send_lock.acquire()` (directly or through a local)
+        lock = lock_entries(g)
         # the task set itself or a local taken from it (`pending = set(self._background_tasks)`)
         tnames = {"self._background_tasks"} | {n_ for n_, ds in norm.fn_defs(cf.node).defs.items() if any(v is not None and "self._background_tasks" in norm.raw(v) for _d, v in ds)}
         waits = [n_ for n_ in g.nodes if n_.in_finally_copy is None and isinstance(getattr(n_, "ast", None), ast.AST) and n_.kind in ("stmt", "test") and any(
@@ -124,7 +177,7 @@ def hunt5_rules(chk, repo, wc, folder):
         if lock and waits and p_ is None:
             chk.ok("C11.closing.pending", waits[0].ast, "close() waits for the send tasks it knows of before it takes the lock: a task created lazily (no eager start before 3.12) is not overtaken by the Close frame")
         elif not lock:
-            chk.analysis_error("C11.closing.pending: `async with self._send_lock` not found in WebSocketWriter.close")
+            chk.analysis_error("C11.closing.pending: `async with self._send_lock` (or `await self._send_lock.acquire()`) not found in WebSocketWriter.close")
         else:
             chk.violation("C11.closing.pending", lock[0].ast, "async with self._send_lock:", "if self._background_tasks: await asyncio.wait(self._background_tasks)  before the lock",
                           f"send_frame() has a lazily started task (`{K.short(lazy[0], 40)}`, interpreters without eager_start): a large compressed message passed the closing test, but its task has not queued for the lock when close() runs in the same loop iteration - the Close frame is written first and the message follows Close on the wire (requires-python is >= 3.10)", path=g.fmt_path(p_) if p_ else None)
@@ -270,42 +323,77 @@ def run(chk):
         if b is None or not isinstance(b["F"], ast.Constant):
             raise AnalysisError(f"C11.len: cannot fold struct format of {nm}")
         fmts[nm] = b["F"].value
-    ifs = [i for i in ast.walk(wf.node) if isinstance(i, ast.If) and "msg_length <" in norm.raw(i.test)]
-    want = [("PACK_LEN1", None, "!BB"), ("PACK_LEN2", 126, "!BBH"), ("PACK_LEN3", 127, "!BBQ")]
-    branches = []
-    if ifs:
-        top = ifs[0]
-        branches.append((norm.raw(top.test), top.body))
-        cur = top
-        while len(cur.orelse) == 1 and isinstance(cur.orelse[0], ast.If):
-            cur = cur.orelse[0]
-            branches.append((norm.raw(cur.test), cur.body))
-        branches.append(("else", cur.orelse))
-    if len(branches) != 3:
-        chk.violation("C11.len", wf, "if msg_length < 126 / elif msg_length < 65536 / else", f"{len(branches)} branches", "frame length encoding no longer has the three RFC 6455 forms")
-    else:
-        for (test, body), (packer, marker, fmt) in zip(branches, want):
-            call = [c for s in body for c, _b in M.find(s, f"{packer}(...)")]
-            if not call or fmts[packer] != fmt:
-                chk.violation("C11.len", wf, test, f"{packer} with format {fmt}", f"length form `{test}` does not use {packer}={fmt} (has {fmts.get(packer)})")
+    # Each of the three RFC 6455 length forms is used for exactly the lengths its field can (and must) carry.  The range is read off the path
+    # condition of the packer call, so the order of the branches and the spelling of the tests (`< 126` / `> 125` / `<= 125`, if-elif chain
+    # from the small or from the large end, guards) do not matter: 7-bit form for [0, 125], 16-bit form for [126, 2**16 - 1], 64-bit form above.
+    want = [("PACK_LEN1", None, "!BB", (0, 125)), ("PACK_LEN2", 126, "!BBH", (126, 2 ** WIDTH["H"] - 1)), ("PACK_LEN3", 127, "!BBQ", (2 ** WIDTH["H"], None))]
+    FLIP = {ast.Lt: ast.Gt, ast.Gt: ast.Lt, ast.LtE: ast.GtE, ast.GtE: ast.LtE}
+
+    def length_range(call, subject: str):
+        """(lo, hi, not understood): the lengths for which `call` is reached, from the unit literals of its path condition that compare `subject`
+        (the text of the length argument, locals resolved) with a constant."""
+        lo, hi, unknown = None, None, []
+        for lit in PC.units(PC.pc(call)):
+            try:
+                e = ast.parse(lit.text, mode="eval").body
+            except SyntaxError:
                 continue
-            c = call[0]
-            args = [norm.raw(a) for a in c.args]
-            length_field = fmt[-1] if fmt != "!BB" else None
-            thr = None
-            b = M.match_text("msg_length < $N", test) if test != "else" else None
-            if b is not None:
-                thr = folder.eval(wf.module, b["N"])
-            if packer == "PACK_LEN1":
-                ok = thr == 126 and args == ["first_byte", "msg_length | mask_bit"]
-            elif packer == "PACK_LEN2":
-                ok = thr == 2 ** WIDTH["H"] and args == ["first_byte", "126 | mask_bit", "msg_length"]
+            if not any(norm.raw(x) == subject for x in ast.walk(e)):
+                continue  # a test of something else
+            bound = None
+            if isinstance(e, ast.Compare) and len(e.ops) == 1 and type(e.ops[0]) in FLIP:
+                left, op, right = e.left, type(e.ops[0]), e.comparators[0]
+                if norm.raw(right) == subject:
+                    left, op, right = right, FLIP[op], left
+                if norm.raw(left) == subject:
+                    try:
+                        v = folder.eval(wf.module, right)
+                        bound = v if isinstance(v, int) and not isinstance(v, bool) else None
+                    except NotConst:
+                        bound = None
+            if bound is None:
+                unknown.append(str(lit))
+                continue
+            # polarity folded in: !(x < N) is x >= N, ...
+            if not lit.pos:
+                op = {ast.Lt: ast.GtE, ast.GtE: ast.Lt, ast.Gt: ast.LtE, ast.LtE: ast.Gt}[op]
+            if op is ast.Lt:
+                hi = bound - 1 if hi is None else min(hi, bound - 1)
+            elif op is ast.LtE:
+                hi = bound if hi is None else min(hi, bound)
+            elif op is ast.Gt:
+                lo = bound + 1 if lo is None else max(lo, bound + 1)
             else:
-                ok = args == ["first_byte", "127 | mask_bit", "msg_length"]
-            if ok:
-                chk.ok("C11.len", c, f"length form `{test}`: {packer}({', '.join(args)}) with format {fmt}" + (f", threshold {thr} = 2**{WIDTH[length_field]}" if length_field and thr else ""))
-            else:
-                chk.violation("C11.len", c, K.short(c), f"threshold {thr}, args {args}", f"length form `{test}` is inconsistent with the width of its length field ({fmt})")
+                lo = bound if lo is None else max(lo, bound)
+        return lo, hi, unknown
+
+    packers = {p: [c for c, _b in M.find(wf.node, f"{p}(...)")] for p, _m, _f, _r in want}
+    if not all(packers.values()):
+        chk.violation("C11.len", wf, "if msg_length < 126 / elif msg_length < 65536 / else", f"packers used: {', '.join(p for p, cs in packers.items() if cs) or 'none'}", "frame length encoding no longer has the three RFC 6455 forms")
+    else:
+        for packer, marker, fmt, (wlo, whi) in want:
+            if fmts[packer] != fmt:
+                chk.violation("C11.len", wf, packer, f"{packer} with format {fmt}", f"length form {packer} does not have the format {fmt} (has {fmts.get(packer)})")
+                continue
+            for c in packers[packer]:
+                args = [norm.raw(a) for a in c.args]
+                length_field = fmt[-1] if fmt != "!BB" else None
+                # the argument that carries the length: the 7-bit field itself (or-ed with the mask bit) or the extended length field
+                if packer == "PACK_LEN1":
+                    b = M.match(M.compile_pat("PACK_LEN1(first_byte, $L | mask_bit)"), c) or M.match(M.compile_pat("PACK_LEN1(first_byte, mask_bit | $L)"), c)
+                else:
+                    b = M.match(M.compile_pat(f"{packer}(first_byte, {marker} | mask_bit, $L)"), c) or M.match(M.compile_pat(f"{packer}(first_byte, mask_bit | {marker}, $L)"), c)
+                subject = norm.text(b["L"], c) if b is not None else None
+                lo, hi, unknown = length_range(c, subject) if subject is not None else (None, None, [])
+                # the payload length is never negative: no lower bound is the bound 0
+                lo = max(lo or 0, 0)
+                ok = b is not None and subject == f"len({wf.node.args.args[1].arg})" and not unknown and lo == wlo and hi == whi
+                rng = f"[{lo}, {hi if hi is not None else 'inf'}]"
+                if ok:
+                    chk.ok("C11.len", c, f"length form {rng}: {packer}({', '.join(args)}) with format {fmt}" + (f", threshold {wlo if whi is None else whi + 1} = 2**{WIDTH['H']}" if length_field else ""))
+                else:
+                    chk.violation("C11.len", c, K.short(c), f"lengths {rng}{' (not understood: ' + ', '.join(unknown) + ')' if unknown else ''}, args {args}",
+                                  f"length form {packer} is used for the lengths {rng}, wanted [{wlo}, {whi if whi is not None else 'inf'}]: inconsistent with the width of its length field ({fmt})")
     # reader side
     rf = repo.func(RM, "WebSocketReader._feed_data")
     r126 = [i for i in ast.walk(rf.node) if isinstance(i, ast.If) and norm.raw(i.test) == "len_flag == 126"]
@@ -319,20 +407,57 @@ def run(chk):
         chk.violation("C11.len", rf, "len_flag == 126 -> 16 bit; > 126 -> !Q", "", "reader's length decoding does not match the writer's struct formats")
 
     # ---- C11.mask (T5) ---------------------------------------------------------------------------------------------
-    mb = norm.fn_defs(wf.node).defs.get("mask_bit", [])
-    um = norm.fn_defs(wf.node).defs.get("use_mask", [])
-    mask_if = [i for i in ast.walk(wf.node) if isinstance(i, ast.If) and norm.raw(i.test) == "use_mask"]
-    if len(mb) == 1 and norm.raw(mb[0][1]) == "128 if use_mask else 0" and len(um) == 1 and norm.raw(um[0][1]) == "self.use_mask" and mask_if:
-        body = mask_if[0]
-        okm = M.contains(body.body[0].value if False else ast.Module(body=body.body, type_ignores=[]), "PACK_RANDBITS(self.get_random_bits())") and \
-            any(M.contains(s, "websocket_mask(mask, $A)") for s in body.body) and any(M.contains(s, "self.transport.write(header + mask + $A)") for s in body.body)
-        if okm and fmts["PACK_RANDBITS"] == "!L":
-            chk.ok("C11.mask", mask_if[0], "mask bit and masking branch are decided by the same `use_mask`; the mask is a fresh 32-bit random value, applied before the write and sent after the header")
+    # One condition (the writer's use_mask, read directly or through a local) decides the mask bit of the header and the masking of the payload.
+    # Recognised by what the definitions and the tests say, not by their shape: `0x80 if use_mask else 0`, `0 if not use_mask else 0x80`, one
+    # assignment per branch of an if statement; `if use_mask: <masked> else: <plain>` or `if not use_mask: <plain> else: <masked>`.
+    COND = "self.use_mask"
+
+    def mask_bit_follows(cond: str) -> bool:
+        """Every definition of the mask bit is 0x80 where `cond` holds and 0 where it does not, and both occur."""
+        seen = set()
+        for d, v in norm.fn_defs(wf.node).defs.get("mask_bit", []):
+            if v is None:
+                return False
+            cases = [(v.body, norm.cnf(v.test, True, d)), (v.orelse, norm.cnf(v.test, False, d))] if isinstance(v, ast.IfExp) else [(v, [])]
+            for e, extra in cases:
+                try:
+                    val = folder.eval(wf.module, e)
+                except NotConst:
+                    return False
+                us = {(l.text, l.pos) for l in PC.units(PC.simplify(PC.pc(d) + extra))}
+                if val == 0x80 and (cond, True) in us:
+                    seen.add(True)
+                elif val == 0 and val is not False and (cond, False) in us:
+                    seen.add(False)
+                else:
+                    return False
+        return seen == {True, False}
+
+    def decided_by(test, ctx, cond: str):
+        """True / False: the test is `cond` / its negation (locals resolved); None: something else"""
+        cl = norm.cnf(test, True, ctx)
+        if len(cl) == 1 and len(cl[0]) == 1 and next(iter(cl[0])).text == cond:
+            return next(iter(cl[0])).pos
+        return None
+
+    mask_if = []  # (if statement, masked block, plain block) of the statements that choose how the frame is written
+    for i in ast.walk(wf.node):
+        if isinstance(i, ast.If) and (pol := decided_by(i.test, i, COND)) is not None and any(
+                isinstance(c, ast.Call) and norm.raw(c.func) in ("self.transport.write", "websocket_mask") for s_ in i.body + i.orelse for c in ast.walk(s_)):
+            mask_if.append((i, i.body, i.orelse) if pol else (i, i.orelse, i.body))
+    if mask_bit_follows(COND) and mask_if:
+        def masks(block):
+            return M.contains(ast.Module(body=block, type_ignores=[]), "PACK_RANDBITS(self.get_random_bits())") and \
+                any(M.contains(s, "websocket_mask(mask, $A)") for s in block) and any(M.contains(s, "self.transport.write(header + mask + $A)") for s in block)
+        good = [m for m in mask_if if masks(m[1])]
+        if good and fmts["PACK_RANDBITS"] == "!L":
+            chk.ok("C11.mask", good[0][0], "mask bit and masking branch are decided by the same `use_mask`; the mask is a fresh 32-bit random value, applied before the write and sent after the header")
         else:
-            chk.violation("C11.mask", mask_if[0], "if use_mask: mask = PACK_RANDBITS(...); websocket_mask(mask, arr); write(header + mask + arr)", "", "masking branch changed: mask not fresh / not applied / not sent")
-        for s in mask_if[0].orelse and ast.walk(ast.Module(body=mask_if[0].orelse, type_ignores=[])) or []:
-            if isinstance(s, ast.Call) and norm.raw(s.func) == "websocket_mask":
-                chk.violation("C11.mask", s, K.short(s), "masking only when the mask bit is set", "payload is masked although the mask bit is clear")
+            chk.violation("C11.mask", mask_if[0][0], "if use_mask: mask = PACK_RANDBITS(...); websocket_mask(mask, arr); write(header + mask + arr)", "", "masking branch changed: mask not fresh / not applied / not sent")
+        for _i, _masked, plain in mask_if:
+            for s in ast.walk(ast.Module(body=plain, type_ignores=[])):
+                if isinstance(s, ast.Call) and norm.raw(s.func) == "websocket_mask":
+                    chk.violation("C11.mask", s, K.short(s), "masking only when the mask bit is set", "payload is masked although the mask bit is clear")
     else:
         chk.violation("C11.mask", wf, "mask_bit = 0x80 if use_mask else 0 ... if use_mask:", "", "the mask bit and the masking branch are no longer decided by one variable")
     try:
